@@ -995,3 +995,47 @@ def rule_shared_mutable_state(ck, ix):
     ck.check(rebinding, "G-OWN", "FullFormatter._formatters|rebound-per-instance", init.loc() if init else fmt.module.relpath,
              "class-level _formatters dict is re-bound to a fresh dict per instance",
              "FullFormatter.__init__ no longer re-binds the class-level _formatters dict: all registries would share (and fill) one formatter table")
+
+
+def alias_adder_facts(ix):
+    """Facts about GenericPlainRegistry._add_alias, found by role rather than by spelling:
+       every_alias -- a call self._helper_single_adder(A, U, <units table>, ...) sits in a loop over
+                      definition.aliases with A the loop variable;
+       looks_up    -- every definition of U is a plain subscription of the units table (so an unknown target raises
+                      KeyError), one of them by definition.name, none inside a try that swallows the error."""
+    from . import shape as _sh
+    fi = ix.func("pint.facets.plain.registry", "GenericPlainRegistry._add_alias")
+    fn = fi.node
+    _sh._set_parents(fn)
+    calls = [c for c in ast.walk(fn) if isinstance(c, ast.Call) and norm(c.func) == "self._helper_single_adder" and len(c.args) >= 3]
+    every_alias = looks_up = False
+    for c in calls:
+        if _sh.rnorm(c.args[2], fn) != "self._units" or not isinstance(c.args[0], ast.Name) or not isinstance(c.args[1], ast.Name):
+            continue
+        cur, loop = c, None
+        while cur is not None and cur is not fn:
+            cur = getattr(cur, "_parent", None)
+            if isinstance(cur, ast.For) and isinstance(cur.target, ast.Name) and cur.target.id == c.args[0].id:
+                loop = cur
+                break
+        if loop is None or _sh.rnorm(loop.iter, fn) != "definition.aliases" or _sh.dead(c, fn):
+            continue
+        every_alias = True
+        uname = c.args[1].id
+        stores = [n for n in ast.walk(fn) if isinstance(n, ast.Name) and n.id == uname and isinstance(n.ctx, ast.Store)]
+        vals = []
+        for s in stores:
+            st = getattr(s, "_parent", None)
+            vals.append(st.value if isinstance(st, (ast.Assign, ast.AnnAssign)) and getattr(st, "value", None) is not None else None)
+        ok = bool(vals) and all(isinstance(v, ast.Subscript) and _sh.rnorm(v.value, fn) == "self._units" for v in vals)
+        ok = ok and any(_sh.rnorm(v.slice, fn) == "definition.name" for v in vals)
+        for s in stores:
+            cur = s
+            while cur is not None and cur is not fn:
+                par = getattr(cur, "_parent", None)
+                if isinstance(par, ast.Try) and any(cur is b for b in par.body):
+                    if any(not _sh._terminates(h.body) or not isinstance(h.body[-1], ast.Raise) for h in par.handlers):
+                        ok = False
+                cur = par
+        looks_up = ok
+    return fi, every_alias, looks_up
